@@ -30,8 +30,11 @@ type c17Range struct {
 type c17Case struct {
 	Backend string     `json:"backend"`
 	SameTx  bool       `json:"sametx"`
-	Decoy   string     `json:"decoy"`  // field of a second index in the same store ("" = none)
-	Values  []cs.V     `json:"values"` // entry i has id gen.Id(i)
+	Decoy   string     `json:"decoy"`            // field of a second index in the same store ("" = none)
+	Coll    string     `json:"coll,omitempty"`   // collection name of the index (default "c")
+	Field   string     `json:"field,omitempty"`  // field name of the index (default "f")
+	Faults  bool       `json:"faults,omitempty"` // additionally fail every cursor read position once
+	Values  []cs.V     `json:"values"`           // entry i has id gen.Id(i)
 	Ranges  []c17Range `json:"ranges"`
 	Reverse []bool     `json:"reverse"`
 	StopAt  []int      `json:"stopat"`
@@ -99,10 +102,17 @@ func c17Body(c *c17Case) *sm.Fail {
 	if err != nil {
 		return bad("harness", "begin: %v", err)
 	}
-	idx := index.CreateIndex("c", "f", index.SingleField, tx).(index.RangeIndex)
+	coll, field := c.Coll, c.Field
+	if coll == "" {
+		coll = "c"
+	}
+	if field == "" {
+		field = "f"
+	}
+	idx := index.CreateIndex(coll, field, index.SingleField, tx).(index.RangeIndex)
 	var decoy index.Index
 	if c.Decoy != "" {
-		decoy = index.CreateIndex("c", c.Decoy, index.SingleField, tx)
+		decoy = index.CreateIndex(coll, c.Decoy, index.SingleField, tx)
 	}
 	valOf := map[string]interface{}{}
 	for i, v := range c.Values {
@@ -127,7 +137,7 @@ func c17Body(c *c17Case) *sm.Fail {
 		if err != nil {
 			return bad("harness", "begin: %v", err)
 		}
-		idx = index.CreateIndex("c", "f", index.SingleField, tx).(index.RangeIndex)
+		idx = index.CreateIndex(coll, field, index.SingleField, tx).(index.RangeIndex)
 	}
 	defer tx.Rollback()
 
@@ -195,6 +205,33 @@ func c17Body(c *c17Case) *sm.Fail {
 		}
 		if f := checkSeq(what, got, want, rev, true); f != nil {
 			return f
+		}
+		if c.Faults && !c.SameTx {
+			// a scan whose k-th cursor read fails must report the error or - if it can tolerate
+			// the failure - still deliver exactly the in-range entries; never a wrong result
+			for k := int64(1); k <= 60; k++ {
+				deco := run.NewDeco(st)
+				ftx, err := deco.Begin(false)
+				if err != nil {
+					return bad("harness", "begin: %v", err)
+				}
+				fidx := index.CreateIndex(coll, field, index.SingleField, ftx).(index.RangeIndex)
+				deco.Arm(k, false)
+				var fgot []string
+				ferr := fidx.IterateRange(r.clover(), rev, func(id string) error { fgot = append(fgot, id); return nil })
+				fired := deco.Fired
+				deco.Disarm()
+				ftx.Rollback()
+				if !fired {
+					break
+				}
+				if ferr == nil {
+					if f := checkSeq(fmt.Sprintf("%s with cursor read %d failing once (no error returned)", what, k), fgot, want, rev, true); f != nil {
+						f.Clause = "fault"
+						return f
+					}
+				}
+			}
 		}
 		if stop > 0 && stop <= len(want) {
 			calls := 0
@@ -276,6 +313,13 @@ func TestC17(t *testing.T) {
 	check(t, "C17", cases(8000, 150000), 0, func(rt *rapid.T) {
 		c := &c17Case{Backend: rapid.SampledFrom([]string{run.Bbolt, run.Bbolt, run.BadgerMem}).Draw(rt, "backend"),
 			SameTx: rapid.Bool().Draw(rt, "sametx"), Decoy: rapid.SampledFrom([]string{"fx", "fx", "e", "", "f.a"}).Draw(rt, "decoy")}
+		if rapid.IntRange(0, 2).Draw(rt, "long-names") == 0 {
+			// names of every length: key construction must not depend on it
+			c.Coll = strings.Repeat("k", rapid.IntRange(1, 12).Draw(rt, "colllen"))
+			c.Field = strings.Repeat("f", rapid.IntRange(1, 72).Draw(rt, "fieldlen"))
+			c.Decoy = rapid.SampledFrom([]string{c.Field + "x", "e", ""}).Draw(rt, "decoy2")
+		}
+		c.Faults = rapid.IntRange(0, 5).Draw(rt, "faults") == 0
 		npal := rapid.IntRange(1, 7).Draw(rt, "npalette")
 		palette := make([]interface{}, npal)
 		for i := range palette {
